@@ -8,6 +8,12 @@ Definition idx (R C T i j a : nat) : nat := a * R * C + j * R + i.
 Definition unidx (R C T p : nat) : nat * nat * nat := (p mod R, (p / R) mod C, p / (R * C)).
 (* transposed view *)
 Definition idx_transposed (R C T i j a : nat) : nat := idx R C T j i a.
+(* Tensor::resize(nrows, ncols, ntubes): the tensor takes the NEW dimensions and is zero-filled, whatever it held before *)
+Record tensor_shape := { t_rows : nat; t_cols : nat; t_tubes : nat; t_size : nat }.
+Definition t_make (R C T : nat) : tensor_shape := {| t_rows := R; t_cols := C; t_tubes := T; t_size := R * C * T |}.
+Definition t_resize (old : tensor_shape) (R C T : nat) : tensor_shape := t_make R C T.
+Definition t_idx (t : tensor_shape) (i j a : nat) : nat := idx (t_rows t) (t_cols t) (t_tubes t) i j a.
+
 (* affinity vector exchanged with callers *)
 Definition idx_gen (K L k q a : nat) : nat := idx K K L k q a.
 Definition idx_ass (K L k a : nat) : nat := idx K 1 L k 0 a.
